@@ -215,6 +215,21 @@ func scenarioC09(r *Run) {
 	cfg := srvCfg{Prop: "C09", MaxMsgs: 5, MaxBatch: 3, SeqIDs: true, ReplyShaped: true, Pushes: 4, Stops: 1, HoldP: 0.4, NoteP: 0.4, KMax: 3}
 	cfg.ForcePush = r.Gen.Chance("forcepush", 0.85)
 	w := newSrvWorld(r, cfg)
+	// the connection may also end by a channel failure or by the peer going away early
+	if r.Gen.Chance("recvfault", 0.2) {
+		w.sEnd.FaultRecvAt[r.Gen.Int("recvfaultat", 10)] = []int{fRecvErr, fRecvDataErr}[r.Gen.Int("recvfaultkind", 2)]
+	}
+	if r.Gen.Chance("earlyclose", 0.15) {
+		w.closeAfter = r.Gen.Int("closeafter", len(w.msgs)+1)
+	}
+	w.sEnd.OnFault = func(kind int) {
+		if kind == fRecvErr || kind == fRecvDataErr {
+			w.causes = append(w.causes, stopCause{Kind: "error", Begin: w.seq(), End: -1})
+			if w.stopSeq < 0 {
+				w.stopSeq = w.seq()
+			}
+		}
+	}
 	w.start()
 	ok := w.drive(func() { w.checkC09(false) })
 	if !ok {
@@ -234,8 +249,20 @@ func scenarioC09(r *Run) {
 		if rp == nil {
 			return
 		}
-	} else if !w.shutdown() {
-		return
+	} else {
+		if !w.shutdown() {
+			return
+		}
+		// pushes after the connection has ended, whatever ended it
+		for i, kind := range []actKind{aNotify, aCallback} {
+			a := &action{Kind: kind, Invoke: -1, Return: -1, CancelSeq: -1, Tag: fmt.Sprintf("late%d", i)}
+			w.acts = append(w.acts, a)
+			r.Sim.Spawn(fmt.Sprintf("z-late%d", i), func() { w.perform(context.Background(), a) })
+		}
+		if !r.RunQ() {
+			return
+		}
+		r.Probe("push-after-connection-ended")
 	}
 	w.qpoints = append(w.qpoints, w.seq())
 	w.checkC09(true)
